@@ -753,16 +753,21 @@ class RefResolver(object):
         """
         Resolve the given reference.
         """
-        url = self._urljoin_cache(self.resolution_scope, ref)
+        try:
+            url = self._urljoin_cache(self.resolution_scope, ref)
+        except ValueError as exc:
+            raise exceptions.RefResolutionError(exc)
         return url, self._remote_cache(url)
 
     def resolve_from_url(self, url):
         """
         Resolve the given remote URL.
         """
-        url, fragment = urldefrag(url)
         try:
+            url, fragment = urldefrag(url)
             document = self.store[url]
+        except ValueError as exc:
+            raise exceptions.RefResolutionError(exc)
         except KeyError:
             try:
                 document = self.resolve_remote(url)
